@@ -636,4 +636,6 @@ def run(ctx):
     rule_presets(ctx)
     rule_branch_tables(ctx)
     rule_regret_update(ctx)
+    import parallel
+    parallel.child_reach_fresh(ctx, 'C08')
     rule_external(ctx)
